@@ -328,10 +328,15 @@ def run_task(prop, clause, tier, seed, shard, nshards):
     return st.pack()
 
 
-def _hyp_settings(n, tier, stateful_steps=None):
+# properties whose thorough tier generates and shrinks only: in their modules the hill climber of the target phase was observed to spin inside Hypothesis
+# without calling the test function for more than 30 CPU-minutes per shard (C07, C09), or no thorough run with targeting has been completed yet (C18, C19)
+NO_TARGET = {'C07', 'C09', 'C18', 'C19'}
+
+
+def _hyp_settings(n, tier, stateful_steps=None, target=True):
     from hypothesis import settings, HealthCheck, Phase
     # thorough tier: targeted search - hypothesis.target() is fed the closest approach of the case to any of its tolerances
-    phases = [Phase.generate, Phase.target, Phase.shrink] if tier == 'thorough' and stateful_steps is None else [Phase.generate, Phase.shrink]
+    phases = [Phase.generate, Phase.target, Phase.shrink] if tier == 'thorough' and stateful_steps is None and target else [Phase.generate, Phase.shrink]
     kw = dict(max_examples=n, database=None, deadline=None, derandomize=False, report_multiple_bugs=False,
               suppress_health_check=list(HealthCheck), phases=phases,
               print_blob=False)
@@ -348,7 +353,7 @@ def _run_hyp(prop, clause, tier, seed, shard, st, one, best):
     t_start = time.time()
 
     @hypothesis.seed(task_seed(seed, prop, clause.name, shard))
-    @_hyp_settings(n, tier)
+    @_hyp_settings(n, tier, target=prop not in NO_TARGET)
     @given(clause.strategy(tier))
     def test(case):
         shrinking = best['t_first'] is not None
@@ -360,7 +365,7 @@ def _run_hyp(prop, clause, tier, seed, shard, st, one, best):
         v = one(case, count=not shrinking)
         if shrinking:
             st.shrink_calls += 1
-        if v is None and tier == 'thorough' and not shrinking:
+        if v is None and tier == 'thorough' and not shrinking and prop not in NO_TARGET:
             from . import util as _U
             hypothesis.target(float(_U.APPROACH[0]), label='closest approach to a tolerance')
         if v is not None:
